@@ -54,8 +54,6 @@ def features(case, run, val):
 
 def case_gen(rng, k):
     if k % 11 == 6: return gen.gen_weak_and_direct_case(rng)
-    if k % 13 == 8: return gen.gen_plain_init_case(rng)
-    if k % 17 == 12: return gen.gen_mixed_attr_case(rng)
     case = gen.gen_parallel_case(rng, clean=(k % 10 != 9)) if k % 5 == 4 else gen.gen_fanin_case(rng) if k % 5 == 2 else gen.gen_case(rng, groups=True, clean=0.75)
     if k % 4 == 3:
         case['mirror'] = rng.choice([1, 1, 2])       # several entities per simulator, connected index by index
@@ -67,6 +65,18 @@ def case_gen(rng, k):
     return case
 
 
+def extra_cases(seed):
+    """families added after the main stream was fixed (they are run in addition, so the main stream keeps its scenarios):
+    initial data on undelayed connections, one attribute fed by a persistent and by an event output"""
+    import random
+    out = []
+    for j in range(16):
+        rng = random.Random(seed * 7919 + j)
+        case = gen.gen_plain_init_case(rng) if j % 2 == 0 else gen.gen_mixed_attr_case(rng)
+        out.append((case, dict(lazy=bool(j % 4 < 2), cache=bool(j % 3), strategy=gen.pick_strategy(rng, case), seed=seed * 100 + j)))
+    return out
+
+
 def run(out, info, tier, seed):
     out.trusted_base = common.COMMON_TRUSTED + [
         'modelled by hand: get_input_data, get_outputs, prune_dataflow_cache, TimedInputBuffer, get_output_for, connect_one data routing (Sched/Plane.v, Static/Build.v); one entity per simulator',
@@ -74,7 +84,7 @@ def run(out, info, tier, seed):
     out.assumptions = ['slot semantics: one value per (destination attribute, source entity); a value overwritten in its slot before the consumer steps is superseded, not lost',
                        'outside the quantifier: several connections into one slot (unique_slots), persistent attributes not produced at every step (persistent_complete)']
     sched_check.sched_property(out, info, tier, seed, 'C03', KINDS, monitor, gen_opts=dict(groups=True, clean=0.75),
-                               case_gen=case_gen,
+                               case_gen=case_gen, extra_cases=extra_cases(seed),
                                ncases=(220, 2500), variants=[(True, True), (False, True), (True, False), (False, False)],
                                nontrivial=nontrivial, features=features, hyp=hyp, known_match=known_match,
                                extra_obligations=[('Sched.DataP (buffer, cache, pruning lemmas)', 'Sched/DataP'),
